@@ -498,10 +498,10 @@ def run(chk) -> None:
     # rules are only the fallback for a mechanism whose code is outside the interpreted fragment
     from checks import c06e
 
-    chk.robust |= {"canonical-candidates", "lifting-fact", "resolution-fact", "numbering-fact", "strands-fact", "strand-text-fact", "extended-fact"}
+    chk.robust |= {"mapping-input-fact", "canonical-candidates", "lifting-fact", "resolution-fact", "numbering-fact", "strands-fact", "strand-text-fact", "extended-fact"}
     decided = c06e.check(chk)
     check_lifting(chk, decided.get("lifting", False))
-    floors = {"lw-reverse": 1}
+    floors = {"lw-reverse": 1, "mapping-input-fact": 4}
     if decided.get("lifting"):
         floors["lifting-fact"] = 5
     else:
